@@ -246,17 +246,32 @@ def rule_pin_utils(ctx, M, rule):
         rets = flow.returned_values(bi)
         ok = len(rets) == 1
         why = []
-        if ok:
+        if ok and kind == "iter":
             t = rets[0][3]
-            if kind == "iter":
+            if True:
                 ok = t[0] == "call" and t[1][1] == "map" and len(t[2]) == 2 and t[2][0][0] == "call" and t[2][0][1][1] == "iter_mut" \
                     and t[2][0][2] and t[2][0][2][0] == ("param", 1)
                 if ok:
                     cl = t[2][1]
                     ok = cl[0] == "agg" and isinstance(cl[1], tuple) and cl[1][0] == "closure" and M.F.closure_return_term(cl[1][1]) == ("param", 2)
-            else:
-                # Option::map with a re-pinning closure is folded to its receiver by the term builder
-                ok = t[0] == "call" and t[1][1] == "get_mut" and len(t[2]) == 2 and t[2][0] == ("param", 1) and t[2][1] == ("param", 2)
+        if kind == "get":
+            # Option::map with a re-pinning closure is folded to its receiver by the term builder; the same thing written
+            # out as `match c.get_mut(i) { Some(x) => Some(Pin::new_unchecked(x)), None => None }` returns two values
+            def is_get(t):
+                return t[0] == "call" and t[1][1] == "get_mut" and len(t[2]) == 2 and t[2][0] == ("param", 1) and t[2][1] == ("param", 2)
+            some = 0
+            ok = bool(rets)
+            for blk, k, payload, t in rets:
+                if is_get(t):
+                    some += 1
+                elif t == ("agg", ("Option", "None"), ()):
+                    pass
+                elif t[0] == "agg" and t[1] == ("Option", "Some") and len(t[2]) == 1 and t[2][0][0] == "field" and t[2][0][2] == 0 \
+                        and t[2][0][1][0] == "variant" and t[2][0][1][2] == "Some" and is_get(t[2][0][1][1]):
+                    some += 1
+                else:
+                    ok = False
+            ok = ok and some >= 1
         raw = []
         for blk in b.j["blocks"]:
             for st in blk["stmts"]:
